@@ -323,6 +323,11 @@ def run_into(chk, pid, binary, sc, tier):
         maxfiles = 3 if tier == "quick" else 4
         if tier == "thorough":
             pool = "<<1,2,3,4,5,6,7,8,10,11,12,13,16,18,19,20,22,23,24,25>>"
+        if tier == "thorough" and pid == "C12":
+            # every permutation of every set, many invocations each: sequences of four files from this pool (168,420 sets) did not finish
+            # within the hour; C12 takes all sequences of <= 3 files from the whole pool and many more random sets instead
+            pool = "<<1,2,3,4,5,6,7,8,9,10,11,12,13,14,15,16,17,18,19,20,21,22,23,24,25>>"
+            maxfiles = 3
         cfg = CFG % {"setat": "MCSetAt", "numsets": "MCNumSets", "devs": DEVS_CURRENT, "extra": "  MaxFiles = %d\n  PoolSeq <- PoolSeqV" % maxfiles}
         res = run_tlc("MergeMC", cfg, sc, cache=True, timeout=3000, defs="PoolSeqV == " + pool)
         if res.violated:
